@@ -778,6 +778,9 @@ where
                     events.push(GenericEvent::NotifyPacketIdReleased(packet_id));
                 }
             }
+
+            // The exchanges are abandoned: their stored packets go with the ids
+            self.store.clear();
         }
 
         // Discard any partially received frame: it belongs to the closed transport
@@ -1247,8 +1250,10 @@ where
         self.store.for_each(|packet| {
             if packet.size() > self.maximum_packet_size_send as usize {
                 let packet_id = packet.packet_id();
-                self.pid_man.release_id(packet_id);
-                events.push(GenericEvent::NotifyPacketIdReleased(packet_id));
+                if self.pid_man.is_used_id(packet_id) {
+                    self.pid_man.release_id(packet_id);
+                    events.push(GenericEvent::NotifyPacketIdReleased(packet_id));
+                }
                 return false; // Remove from store
             }
             // Every retransmitted packet is an incomplete exchange of this connection
